@@ -278,10 +278,10 @@ Proof.
       pose proof S1 as (A1 & A2 & A3 & A4 & A5 & A6 & A7 & A8).
       destruct (IH t1 ch1 false cl) as (t' & ch' & E & S2 & B2 & W2); try congruence.
       { rewrite (same_head_has_body _ _ S1). exact Hb. }
-      { rewrite B1. lia. }
+      { rewrite B1. clear - Hfit. lia. }
       exists t', ch'. fold (plain_steps chunks). rewrite E. split; [reflexivity|].
       split; [eapply same_head_trans; eauto|]. split.
-      * rewrite B2, B1. cbn [concat]. rewrite app_length, Nat2Z.inj_add. lia.
+      * rewrite B2, B1. cbn [concat]. rewrite app_length, Nat2Z.inj_add. clear. lia.
       * rewrite W2, W1, <- app_assoc. reflexivity.
 Qed.
 
@@ -322,16 +322,16 @@ Proof.
       assert (Hbp : has_body tp = true) by (unfold has_body in *; rewrite K5; exact Hb).
       destruct (write_body_len (set_wrote true tp) ch1 (x :: d) cl) as (t2 & ch2 & E2 & S2 & B2 & W2);
         try (cbn [t_clen t_chunked t_cbw set_wrote]; congruence); auto.
-      { cbn [t_cbw set_wrote]. rewrite K4, Hcbw. lia. }
+      { cbn [t_cbw set_wrote]. rewrite K4, Hcbw. clear - Hfit. lia. }
       rewrite E2 in H. fold (plain_steps chunks) in H.
       pose proof S2 as (A1 & A2 & A3 & A4 & A5 & A6 & A7 & A8).
       cbn [t_status t_chunked t_cof t_wrote_header t_complete t_clen t_rh t_v11 t_cbw set_wrote] in *.
       destruct (iterate_after_head_len l1 chunks t2 ch2 false cl) as (t3 & ch3 & E3 & S3 & B3 & W3); try congruence.
       { rewrite (same_head_has_body _ _ S2). exact Hbp. }
-      { rewrite B2, K4, Hcbw. lia. }
+      { rewrite B2, K4, Hcbw. clear - Hfit. lia. }
       rewrite E3 in H. clear Etp. inversion H; subst. cbn [fst snd].
       exists tp, head. split; auto. split; [eapply same_head_trans; eauto|]. split.
-      * rewrite B3, B2, K4, Hcbw. cbn [concat]. rewrite app_length, Nat2Z.inj_add. lia.
+      * rewrite B3, B2, K4, Hcbw. cbn [concat]. rewrite app_length, Nat2Z.inj_add. clear. lia.
       * rewrite W3, W2, Hwire, <- !app_assoc. reflexivity.
 Qed.
 
